@@ -755,6 +755,28 @@ FROM_SCRATCH = {
 }
 
 
+def _equal_values_path(run):
+    """the path's single stream-dependent decision established `entering value == leaving value`"""
+    if len(run.dd) != 1 or run.dd[0][0] is None:
+        return False
+    op_c, ca_, cb_ = run.dd[0][0]
+    truth_c = run.dd[0][1]
+    if not ((op_c == 'Eq' and truth_c) or (op_c == 'Ne' and not truth_c)):
+        return False
+    if not (isinstance(ca_, Aff) and isinstance(cb_, Aff)) or not ca_.c.eq(cb_.c):
+        return False
+    fa = ca_.co if ca_.lin else {}
+    fb = cb_.co if cb_.lin else {}
+    if fa is None or fb is None:
+        return False
+    d = {}
+    for k_ in set(fa) | set(fb):
+        v = fa.get(k_, ZERO) - fb.get(k_, ZERO)
+        if not v.is_zero():
+            d[k_] = v
+    return set(d) == {'input', 'popped'} and (d['input'] + d['popped']).is_zero()
+
+
 def rule_L05_from_scratch(ctx):
     m = Model(ctx.facts())
     f = m.f
@@ -770,6 +792,7 @@ def rule_L05_from_scratch(ctx):
         xb = m.body(m.impl_fn_path(impl, 'next'))
         pmax = {'u8': 255, 'u16': 65535}.get(nb.local_ty(1), 65535)
         ok = True
+        seen_inv = {}
         for r in range(MOD):
             wlin.PARAM_RANGE['kmin'] = 0 if r else 1
             wlin.PARAM_RANGE['kmax'] = (pmax - r) // MOD
@@ -802,7 +825,7 @@ def rule_L05_from_scratch(ctx):
                         _label(st)
                         box = {'s': st, 'x': Aff(True, ONE, ZERO, False, {'input': ONE})}
                         return [Ref(box, 's'), Ref(box, 'x')]
-                    for run, args, out in explore(f, xb, mk_next, label_popped=True):
+                    for run, args, out in sorted(explore(f, xb, mk_next, label_popped=True), key=lambda t: (1 if _equal_values_path(t[0]) else 0, len(t[0].dd))):
                         sub, infeasible = _apply_assumptions(crun.assume + run.assume)
                         if infeasible is True:
                             continue
@@ -811,7 +834,7 @@ def rule_L05_from_scratch(ctx):
                         capv = _sub(cap.c, sub)
                         if capv.is_zero():
                             continue
-                        if run.data_dependent:
+                        if run.data_dependent and not _single_generic_decision(run):
                             raise Abstain('data-dependent path')
                         if len(run.pushed) != 1 or not isinstance(run.pushed[0], Aff) or run.pushed[0].co is None or \
                                 {a for a, c in run.pushed[0].co.items() if not c.is_zero()} != {'input'} or not run.pushed[0].co['input'].eq(ONE):
@@ -823,12 +846,38 @@ def rule_L05_from_scratch(ctx):
                         if set(fields) != old_names or any(x.co is None for x in fields.values()) or not isinstance(out, Aff) or out.co is None:
                             raise Abstain('state after the step is not tracked coefficient by coefficient')
                         # invariant of each accumulator: F = a*M0 + b*M1, read off the coefficients of the input and of the evicted element
+                        # a path taken only when the entering value equals the leaving one (x == p): coefficients of x and p are then
+                        # determined only up to multiples of (x - p); the invariants are those of the unconstrained paths
+                        constrained = _equal_values_path(run)
+                        path_bad = False
                         inv = {}
                         for nm, x in fields.items():
                             a_ = _sub(x.co.get('input', ZERO), sub)
                             e_ = _sub(x.co.get('popped', ZERO), sub)
                             b_ = -(e_ + a_).div(n_)
+                            if constrained:
+                                if (r, nm) not in seen_inv:
+                                    raise Abstain('no unconstrained path fixes the invariant of %s' % nm)
+                                a0_, b0_ = seen_inv[(r, nm)]
+                                # residual of the x / p part must be a multiple of (x - p)
+                                rx = a_ - a0_
+                                rp = e_ + a0_ + n_ * b0_
+                                if not (rx + rp).is_zero():
+                                    res.violate('%s|%s|equal-values-path' % (short, nm), '%s: on the path taken when the entering value equals the leaving one the accumulator `%s` is not updated as '
+                                                '%s*M0 + %s*M1 requires (the elements that stay still change their age)' % (short, nm, a0_, b0_), xb.file, xb.line)
+                                    ok = False
+                                    path_bad = True
+                                inv[nm] = (a0_, b0_)
+                                continue
                             inv[nm] = (a_, b_)
+                            # every path some stream takes must maintain the SAME combination
+                            first = seen_inv.setdefault((r, nm), (a_, b_))
+                            if not (first[0].eq(a_) and first[1].eq(b_)):
+                                res.violate('%s|%s|path-dependent' % (short, nm), '%s: on a path that some stream takes (one stream-dependent decision) the accumulator `%s` is updated as %s*M0 + %s*M1, '
+                                            'on another as %s*M0 + %s*M1: it cannot stay one combination of the window contents' % (short, nm, a_, b_, first[0], first[1]), xb.file, xb.line)
+                                ok = False
+                        if path_bad:
+                            continue
                         for nm, x in fields.items():
                             res.inst('%s|%s' % (key0, nm))
                             a_, b_ = inv[nm]
@@ -879,7 +928,10 @@ def rule_L05_from_scratch(ctx):
                         ox = cx - cM0 + cM1
                         op_ = cp + cM0 - cM1 + cM1 * n_
                         doc = FROM_SCRATCH[short](n_)
-                        for got, want, what in zip((o0, o1, ox, op_), doc, ('the window sum', 'the age-weighted window sum', 'the input', 'the evicted element')):
+                        cmp_list = list(zip((o0, o1, ox, op_), doc, ('the window sum', 'the age-weighted window sum', 'the input', 'the evicted element')))
+                        if constrained:
+                            cmp_list = cmp_list[:2] + [(ox + op_, doc[2] + doc[3], 'the entering = leaving value')]
+                        for got, want, what in cmp_list:
                             if got.eq(want):
                                 continue
                             cr = _compare_over_range(got, want, ZERO, ZERO, sub, assume)
